@@ -442,6 +442,176 @@ macro_rules! impl_for_settings {
         impl_vecdyn!(['a, T: Elem] MutBumpVec<T, &'a mut Bump<Global, $S>>, T, cap = |v| v.capacity(), grow = yes, split = no, shrink = no);
     };
 }
+/// `MutBumpVecRev`: pushes go to the front; only the operations the type has
+macro_rules! impl_vecdyn_rev {
+    ($S:ty) => {
+        impl<'a, T: Elem> VecDyn<'a> for MutBumpVecRev<T, &'a mut Bump<Global, $S>> {
+            fn ids(&self) -> Vec<u64> {
+                self.as_slice().iter().map(|e| e.ident()).collect()
+            }
+            fn len(&self) -> usize {
+                MutBumpVecRev::len(self)
+            }
+            fn cap(&self) -> usize {
+                self.capacity()
+            }
+            /// the END of the buffer (the elements sit in front of it): stable while nothing is reallocated
+            fn addr(&self) -> usize {
+                self.as_ptr() as usize + MutBumpVecRev::len(self) * std::mem::size_of::<T>()
+            }
+            fn apply(&mut self, op: &Op) -> String {
+                let s = self;
+                match op {
+                    Op::Truncate(n) => {
+                        s.truncate(*n);
+                        String::new()
+                    }
+                    Op::Clear => {
+                        s.clear();
+                        String::new()
+                    }
+                    Op::Pop => opt_text(s.pop()),
+                    Op::Remove(i) => val_text(s.remove(*i)),
+                    Op::SwapRemove(i) => val_text(s.swap_remove(*i)),
+                    Op::Push(id) => {
+                        s.push(T::make(*id));
+                        String::new()
+                    }
+                    Op::Insert(i, id) => {
+                        s.insert(*i, T::make(*id));
+                        String::new()
+                    }
+                    Op::ExtendClone(n) => {
+                        let src: Vec<SrcElem<T>> = (0..*n).map(|_| SrcElem::new()).collect();
+                        let src_ref: &[T] = SrcElem::as_slice(&src);
+                        s.extend_from_slice_clone(src_ref);
+                        String::new()
+                    }
+                    Op::Resize(n, id) => {
+                        s.resize(*n, T::make(*id));
+                        String::new()
+                    }
+                    Op::Append(ids) => {
+                        let src: Vec<T> = ids.iter().map(|i| T::make(*i)).collect();
+                        s.append(src);
+                        String::new()
+                    }
+                    other => unreachable!("operation {:?} is not available on MutBumpVecRev", other),
+                }
+            }
+            fn consume(self: Box<Self>, op: &Op) -> (String, Option<DynVec<'a>>) {
+                match op {
+                    Op::IntoIter(script) => {
+                        let mut it = (*self).into_iter();
+                        let t = pulls_text(&mut it, script);
+                        drop(it);
+                        (t, None)
+                    }
+                    _ => unreachable!("not a consuming operation of MutBumpVecRev"),
+                }
+            }
+            fn split_off_dyn(&mut self, _start: usize, _end: usize) -> Option<DynVec<'a>> {
+                None
+            }
+            fn shrink_dyn(&mut self) -> bool {
+                false
+            }
+        }
+    };
+}
+impl_vecdyn_rev!(S1U);
+impl_vecdyn_rev!(S1D);
+impl_vecdyn_rev!(S8U);
+impl_vecdyn_rev!(S16D);
+
+/// reference semantics of `MutBumpVecRev` on the sequence `as_slice()` shows (front = index 0):
+/// `std::collections::VecDeque` with front and back mirrored
+pub fn std_apply_rev(v: &mut Vec<u64>, op: &Op, o: &[Oc]) -> Result<(String, usize), ()> {
+    let mut d: VecDeque<u64> = v.iter().copied().collect();
+    let mut used = 0usize;
+    let vals: Vec<u64> = o.iter().map(|x| match x { Oc::Ret(v) => *v, Oc::Panic => unreachable!() }).collect();
+    let r = match op {
+        Op::Truncate(n) => {
+            // keeps the LAST n elements
+            while d.len() > *n {
+                d.pop_front();
+            }
+            String::new()
+        }
+        Op::Clear => {
+            d.clear();
+            String::new()
+        }
+        Op::Pop => match d.pop_front() {
+            None => "none".into(),
+            Some(x) => format!("some:{x}"),
+        },
+        Op::Remove(i) => {
+            if *i >= d.len() {
+                return Err(());
+            }
+            d.remove(*i).unwrap().to_string()
+        }
+        Op::SwapRemove(i) => {
+            if *i >= d.len() {
+                return Err(());
+            }
+            d.swap_remove_front(*i).unwrap().to_string()
+        }
+        Op::Push(id) => {
+            d.push_front(*id);
+            String::new()
+        }
+        Op::Insert(i, id) => {
+            if *i > d.len() {
+                return Err(());
+            }
+            d.insert(*i, *id);
+            String::new()
+        }
+        Op::ExtendClone(n) => {
+            // the source slice ends up in front, in its own order: its clones are made back to front
+            for k in 0..*n {
+                d.push_front(vals[k]);
+                used += 1;
+            }
+            String::new()
+        }
+        Op::Resize(n, id) => {
+            if *n <= d.len() {
+                while d.len() > *n {
+                    d.pop_front();
+                }
+            } else {
+                for k in 0..(*n - d.len() - 1) {
+                    d.push_front(vals[k]);
+                    used += 1;
+                }
+                d.push_front(*id);
+            }
+            String::new()
+        }
+        Op::Append(ids) => {
+            for x in ids.iter().rev() {
+                d.push_front(*x);
+            }
+            String::new()
+        }
+        Op::IntoIter(script) => {
+            let mut ys = Vec::new();
+            for c in script {
+                let y = if *c == b'f' { d.pop_front() } else { d.pop_back() };
+                ys.push(y.map_or("none".to_string(), |x| x.to_string()));
+            }
+            d.clear();
+            if ys.is_empty() { "-".to_string() } else { ys.join("/") }
+        }
+        other => unreachable!("operation {:?} has no MutBumpVecRev reference", other),
+    };
+    *v = d.into_iter().collect();
+    Ok((r, used))
+}
+
 impl_for_settings!(S1U);
 impl_for_settings!(S1D);
 impl_for_settings!(S8U);
